@@ -3,6 +3,7 @@ import Dashu.Model.Text.Bytes
 import Dashu.Model.Text.Float
 import Dashu.Model.Text.Capacity
 import Dashu.Model.Text.ChunksWord
+import Dashu.Model.Text.FmtLow
 import Dashu.Model.Float.RoundOps
 /-
   Driver of group `text` (C07): integer formatting, parsing, byte and chunk encodings.
@@ -49,7 +50,11 @@ def fmtOp (W : Nat) (t fa fl w : String) (z : Int) : Option String := do
   let f ← parseFmtSpec fa fl w
   if !validRadix t.radix then pure "panic InvalidRadix"
   else
-    let m := natBytesToStr (fmtModel W t f z)
+    -- the model side is the mirrored low layer: reciprocal division by the radix (`FastDivideSmall`), SWAR
+    -- digit → ASCII, buffered `DigitWriter` (Model/Text/FmtLow.lean; = `fmtModel` by `print_on_mirrored_low_layer`)
+    let m := match fmtModelF W t f z with
+      | .ok bs => natBytesToStr bs
+      | .error e => "!model-low-layer-panic " ++ (toString (repr e)).replace " " "_"
     let s := natBytesToStr (fmtSpec t f z)
     -- the bounded-buffer model must not panic and must deliver the same digits (Proofs/Text/Capacity.lean)
     let bounded := match rawDigitsC W t.radix z.natAbs with
@@ -229,6 +234,29 @@ def dispatch : Dispatch := fun W op args =>
   match op, args with
   | "u.fmt", [t, fa, fl, w, n] => do fmtOp W t fa fl w (← parseNat n)
   | "i.fmt", [t, fa, fl, w, n] => do fmtOp W t fa fl w (← parseInt n)
+  -- `FastDivideSmall` (num-modular `PreMulInv1by1<uW>`) driven directly at word size `w`: the private fields `m`, `shift`
+  -- computed by the mirrored `new`, quotient and remainder by the mirrored `div_rem`; spec side: `/`, `%`
+  | "t.fastdiv", [w, d, a] => do
+    let w ← parseDecNat w; let d ← parseNat d; let a ← parseNat a
+    if d < 2 ∨ d ≥ 2 ^ w ∨ a ≥ 2 ^ w then none
+    match PreMulInv1by1.new w d with
+    | .error e => pure ("ok !model-low-layer-panic " ++ (toString (repr e)).replace " " "_")
+    | .ok p =>
+      match p.divRem w a d with
+      | .error e => pure ("ok !model-low-layer-panic " ++ (toString (repr e)).replace " " "_")
+      | .ok (q, r) =>
+        let out := "ok " ++ natToHex p.m ++ " d:" ++ toString p.shift ++ " " ++ natToHex q ++ " " ++ natToHex r
+        pure (if q = a / d ∧ r = a % d then out else out ++ " !model-spec-mismatch fastdiv")
+  -- `{:?}` (`DoubleEnd`): sign, all / first..last decimal digits, `#` appends the digit and bit counts; the width
+  -- is ignored by the implementation (correspondence only: the text is not a positional representation)
+  | "u.dbg", [fl, w, n] => do
+    let _ ← parseWidth w
+    if fl ≠ "-" ∧ fl ≠ "+" ∧ fl ≠ "#" ∧ fl ≠ "+#" then none
+    pure ("ok " ++ natBytesToStr (debugInt W (fl.contains '#') (fl.contains '+') (Int.ofNat (← parseNat n))))
+  | "i.dbg", [fl, w, n] => do
+    let _ ← parseWidth w
+    if fl ≠ "-" ∧ fl ≠ "+" ∧ fl ≠ "#" ∧ fl ≠ "+#" then none
+    pure ("ok " ++ natBytesToStr (debugInt W (fl.contains '#') (fl.contains '+') (← parseInt n)))
   | "u.parse", [s, r] => do
     let s ← parseStr s; let r ← parseDecNat r
     pure (flag (resInt (parseRadix W false s r)) (resInt (parseRadixSpec false s r)) false ++ boundedParse W false s r)
